@@ -3,6 +3,10 @@
 import json, os
 HERE = os.path.dirname(os.path.dirname(os.path.abspath(__file__)))
 CHECKS = {
+ "C13": dict(
+  text="Bounded symbolic model checking of refine_hmmscan_results (both modes) with its helpers, of filter_results / filter_result_multiple and of hmmer.remove_overlapping on k <= 3 (quick) / 4 (thorough) hits with symbolic coordinates (ints) and scores / e-values (reals), every profile assignment over 2-3 profiles, every input order and every set-iteration numbering: results ordered by position, identical for every order, kept hits are inputs or spanning same-profile merges with best score, no two kept hits overlap beyond the margin, dropped hits have a better-ranked overlapping kept hit, one survivor per overlap group / profile.",
+  note="Profile lengths 15/35 and cutoffs 20/30 are concrete; set iteration order is modelled as harness-chosen (every order supplied); doubles that are nearest to simple fractions are read as those fractions (DESIGN 1.4). Known finding C13-1 (greedy comparison against the last kept hit only) is reported as KNOWN-FINDING, anything outside its region is a violation.",
+  ref="3/C13"),
  "C01": dict(
   text="Bounded symbolic model checking of the real rule evaluator (DetectionRule.detect and every Conditions subclass) on condition trees parsed from text by the real Parser: for each enumerated tree (22 quick / ~150 thorough; not/and/or/groups/cds/minimum/minscore over 2 profiles) the evaluation at a gene with 2 neighbours is executed on symbolic gene coordinates, cutoff, record length, hit presence (booleans) and bitscores (reals), and z3 must answer unsat for path /\\ not(documented formula) for met, the reason profiles and the anchoring decision; distance-at-cutoff and across-origin cases are solver-chosen.",
   note="Trees are enumerated (the programs axis is sampled, inputs are symbolic). Details.in_range is explored as a function summary (same code). 3 genes, 2 profiles; minscore inside cds() is outside the documented grammar and not claimed.",
@@ -19,6 +23,10 @@ CHECKS = {
   text="Bounded symbolic model checking of Record.create_regions / add_region / Region.__init__ on <= 3 (quick, plus one 4-area linear class) / 4 (thorough) areas (subregions and single-protocluster candidate clusters, simple or origin-spanning) with symbolic coordinates: creation never raises, regions are pairwise disjoint, two areas share a region iff linked by a chain of overlaps (unrolled closure), each region covers exactly the union of its component, numbering follows order; plus all add/clear/create histories of length <= 3 (quick) / 4 (thorough) checked for stale parent links.",
   note="Areas are subregions or candidate clusters with one protocluster (a multi-protocluster candidate still has one span); longer histories and more areas are outside the claim.",
   ref="3/C06"),
+ "C07": dict(
+  text="Bounded symbolic model checking of (a) apply_cluster_rules on rulesets whose cutoffs follow every two-cutoff pattern (AB .. BBA; the per-cutoff cache and wrap-point handling) against each rule evaluated alone and against 'fires iff the partner gene is closer than the cutoff the shorter way round', for two genes with symbolic coordinates on records larger than / comparable to / smaller than the cutoffs (thorough: fully symbolic sizes for pattern ABA); (b) origin rotation: a circular record with two anchoring genes and the same record re-indexed at any origin k (incl. cutting a gene, which becomes a two-part gene by the specification of rotation) both go through find_protoclusters in one symbolic path and must group the genes identically whenever the protoclusters span less than half the record.",
+  note="Rule evaluation itself is C01, grouping for 3-4 genes is C03, candidate/region stages on origin-spanning inputs are C05/C06; here: 2 genes, <= 3 rules, 2 distinct cutoffs, neighbourhood 0 in the rotation harness.",
+  ref="3/C07"),
  "C08": dict(
   text="Bounded symbolic model checking of Record.get_cds_features_within_location (G <= 3 quick / 4 thorough genes incl. nested, equal-start, spliced and origin-crossing genes; simple and origin-spanning queries; with_overlapping both) against the containment / shares-a-base spec per gene, and of the add_cds_feature / add_protocluster / add_subregion / create_regions interleavings (6 quick / 60 thorough orders) against 'each area lists exactly the genes it contains and each gene points to its region'.",
   note="Coordinates and record length are unbounded symbolic ints; gene count, exon count (<= 2) and number of areas are bounded as stated.",
